@@ -106,6 +106,82 @@ def install_core(ns):
     _wrap(SM, "execute_systems", "execute_systems", lambda self, ser, throw_error=False: {"throw": bool(throw_error)},
           _sched_state, lambda self, ser, mark: {"ran": [[str(s.id), ser.of(s)] for s in _ran[mark:]]})
     _wrap(Model, "complete", "complete", lambda self, ser: {}, lambda self, ser: _sched_state(self.systems, ser))
+    install_population(ns)
+
+
+# ------------------------------------------------------------------ population and component listings
+_TYPE_NAMES = "ABCD"
+
+
+def _tname(ser, cls):
+    """Component classes are named A..D in order of first appearance within one event."""
+    types = ser.__dict__.setdefault("types", {})
+    if cls not in types:
+        if len(types) >= len(_TYPE_NAMES):
+            raise TypeError
+        types[cls] = _TYPE_NAMES[len(types)]
+    return types[cls]
+
+
+def _subject(ser, agent):
+    ser.subjects = (agent,)
+    return ser.of(agent)
+
+
+def _pop_state(model, ser):
+    """Environment order, components of every agent involved, and the component listings of `model`.
+    The position component (owned by the spatial layer) is left out everywhere."""
+    try:
+        pc = getattr(sys.modules.get("ECAgent.Environments"), "PositionComponent", None)
+        env = model.environment
+        if len(env.agents) > 10:
+            return None
+        seen, agents = set(), []
+
+        def add(a):
+            if id(a) in seen:
+                return
+            seen.add(id(a))
+            agents.append([ser.of(a), str(a.id), [[_tname(ser, t), ser.of(c)] for t, c in a.components.items() if t is not pc]])
+        for a in getattr(ser, "subjects", ()):
+            add(a)
+        for a in env.agents.values():
+            add(a)
+        pools = []
+        for t, lst in model.systems.component_pools.items():
+            if t is pc:
+                continue
+            for c in lst:
+                add(c.agent)
+            pools.append([_tname(ser, t), [[ser.of(c.agent), ser.of(c)] for c in lst]])
+        if len(agents) > 12:
+            raise TypeError
+        return {"env": [[str(a.id), ser.of(a)] for a in env.agents.values()], "agents": agents, "pools": pools,
+                "is_env": [ser.of(env)]}
+    except Exception:  # noqa: BLE001
+        return None
+
+
+def install_population(ns):
+    Env, Agent, SM = ns["Environment"], ns["Agent"], ns["SystemManager"]
+    _wrap(Env, "add_agent", "join", lambda self, ser, agent: {"a": _subject(ser, agent), "id": str(agent.id)},
+          lambda self, ser: _pop_state(self.model, ser))
+    _wrap(Env, "remove_agent", "leave", lambda self, ser, a_id: {"id": str(a_id)}, lambda self, ser: _pop_state(self.model, ser))
+    _wrap(Agent, "add_component", "attach",
+          lambda self, ser, component: {"a": _subject(ser, self), "id": str(self.id), "T": _tname(ser, type(component)), "s": ser.of(component),
+                                        "owner": ser.of(component.agent)},
+          lambda self, ser: _pop_state(self.model, ser))
+    _wrap(Agent, "remove_component", "detach",
+          lambda self, ser, component_type: {"a": _subject(ser, self), "id": str(self.id), "T": _tname(ser, component_type)},
+          lambda self, ser: _pop_state(self.model, ser))
+    _wrap(SM, "register_component", "register",
+          lambda self, ser, component: {"a": _subject(ser, component.agent), "id": str(component.agent.id), "T": _tname(ser, type(component)),
+                                        "s": ser.of(component)},
+          lambda self, ser: _pop_state(self.model, ser))
+    _wrap(SM, "deregister_component", "deregister",
+          lambda self, ser, component: {"a": _subject(ser, component.agent), "id": str(component.agent.id), "T": _tname(ser, type(component)),
+                                        "s": ser.of(component)},
+          lambda self, ser: _pop_state(self.model, ser))
 
 
 # ------------------------------------------------------------------ spatial worlds
